@@ -275,6 +275,10 @@ func c16Run(c *mon.Ctx, idx int) {
 // ---------------------------------------------------------------------------
 // C19
 
+type failingWriter struct{}
+
+func (failingWriter) Write(p []byte) (int, error) { return 0, io.ErrClosedPipe }
+
 // c19Scribble rewrites, in place, every selector part and literal of a tree.
 func c19Scribble(e grammar.Expression) {
 	switch x := e.(type) {
@@ -319,6 +323,20 @@ func c19Run(c *mon.Ctx, idx int) {
 			txt = strconv.Quote(long) + " " + op + " lng and (" + txt + ")"
 		}
 		c.Count("long_literal_dumps")
+	}
+	if idx%40 == 11 {
+		// binding names that contain the separator a cache key might be joined with
+		txt = []string{`any l as idx/a, b { b == 1 }`, `any l as idx, a/b { idx == 1 }`, `all m as k/v { k/v == 1 }`, `any l as _, a/b/c { a/b/c == 1 }`, `any l as a/b, c { c == 1 }`, `any l as a, b/c { a == 1 }`}[(idx/40)%6]
+		c.Count("slash_binding_dumps")
+	}
+	if idx%40 == 13 {
+		// a dump into a writer that fails must not spoil the next dump
+		if o0 := observeParse(txt, safeBudget); o0.Err == nil && o0.Panic == "" {
+			if t0, ok := o0.Val.(grammar.Expression); ok && t0 != nil {
+				mon.Try(func() { t0.ExpressionDump(failingWriter{}, "  ", 0) })
+			}
+		}
+		c.Count("dumps_after_a_failed_write")
 	}
 	if idx%40 == 9 {
 		// trees deeper than any fixed stack / buffer of a renderer: flat chains of
@@ -589,7 +607,7 @@ func init() {
 		NumCases:    func(tier string) int { return tierN(tier, 12000, 500000) },
 		Run:         c19Run,
 		Required: func(tier string) []string {
-			l := []string{"dumps_compared", "concurrent_dump_rounds", "long_literal_dumps", "long_indent_units", "deep_tree_dumps", "sibling_tree_independence_checked", "selector_strings", "node:pointer-selector", "node:Or", "node:And", "node:Not", "node:Quant", "node:Match", "node:bind:0", "node:bind:1", "node:bind:2", "node:bind:3"}
+			l := []string{"dumps_compared", "concurrent_dump_rounds", "long_literal_dumps", "long_indent_units", "deep_tree_dumps", "sibling_tree_independence_checked", "slash_binding_dumps", "dumps_after_a_failed_write", "selector_strings", "node:pointer-selector", "node:Or", "node:And", "node:Not", "node:Quant", "node:Match", "node:bind:0", "node:bind:1", "node:bind:2", "node:bind:3"}
 			for _, o := range xgen.OpNames {
 				l = append(l, "node:op:"+o)
 			}
